@@ -1,3 +1,3 @@
 From JamV Require Import Model.Shuffle Model.ShuffleFast.
 Require Import ExtrOcamlBasic.
-Extraction "model.ml" N.of_nat N.to_nat Z.of_N Z.to_N F F_fast qseq shuffle_fast rotate assign_slots slots_from tiny_params full_params.
+Extraction "model.ml" N.of_nat N.to_nat Z.of_N Z.to_N F F_fast qseq qseq_fast shuffle_fast rotate assign_slots slots_from tiny_params full_params.
